@@ -105,6 +105,29 @@ def run_case(case):
                 if float(arr[tuple(int(x) for x in c)]) != g:
                     vs.append({"clause": "integer coordinates return the array entries", "detail": f"shape {shape} index {[int(x) for x in c]}: {g} vs {arr[tuple(int(x) for x in c)]}", "key": "C15:node"})
                     break
+        # C15_monotone_in_values_inside / C14_no_overshoot_inside_grid on the implementation: inside the array the weights are
+        # non-negative (exact: all numbers are dyadic)
+        inside = [i for i, (kind, _) in enumerate(pts) if kind in ("node", "frac")]
+        if inside and not is_int and not vs:
+            bump = np.array([r.choice([0, 0, 1, 4, 16]) / 8 for _ in range(size)], dtype=float).reshape(shape)
+            try:
+                if batched:
+                    got2 = np.asarray(map_coordinates(jnp.asarray(arr + bump), coords)).tolist()
+                else:
+                    got2 = [np.asarray(map_coordinates(jnp.asarray(arr + bump), coords)).tolist()]
+            except Exception as e:  # noqa: BLE001
+                vs.append({"clause": "map_coordinates evaluates", "detail": f"{impl_site(e)}: {str(e)[:200]}", "key": "C15:eval"})
+                return out
+            lo_v, hi_v = float(arr.min()), float(arr.max())
+            for i in inside:
+                out["evals"] += 1
+                out["hist"]["inside_bounds_and_monotone"] = out["hist"].get("inside_bounds_and_monotone", 0) + 1
+                if not (lo_v <= got[i] <= hi_v):
+                    vs.append({"clause": "inside the array the value lies within the range of the entries", "detail": f"shape {shape} coords {[str(x) for x in pts[i][1]]}: {got[i]} outside [{lo_v}, {hi_v}]", "key": "C15:overshoot"})
+                    break
+                if got2[i] < got[i]:
+                    vs.append({"clause": "inside the array a pointwise larger array gives a larger value", "detail": f"shape {shape} coords {[str(x) for x in pts[i][1]]}: {got[i]} -> {got2[i]} after adding {bump.ravel().tolist()}", "key": "C15:monotone"})
+                    break
         out["sample"] = {"shape": shape, "int_input": is_int, "coords": [str(x) for x in pts[0][1]], "implementation": got[0], "model": ans[0]}
         return out
     # ---------------- grids
